@@ -290,10 +290,10 @@ def run_unknown(args):
 
 
 # ------------------------------------------------------------------------------------------
-def expected_key(mtn, centre, sub, mver, lver):
+def expected_key(mtn, centre, sub, mver, lver, root=None):
     """the documented fall-back (docstring of normalize_tables_sn), judged against the directory listing"""
     def isdir(*parts):
-        return os.path.isdir(os.path.join(ROOT, *[str(x) for x in parts]))
+        return os.path.isdir(os.path.join(root or ROOT, *[str(x) for x in parts]))
     mtn = mtn or 0
     mver = mver or 33
     if not isdir(mtn):
@@ -337,7 +337,70 @@ def run_select(combos):
     return p
 
 
+def private_root(base):
+    """a second tables directory that holds fewer versions than the bundled one (links to the bundled version directories)"""
+    root = os.path.join(base, 'c14_private_tables_%d' % os.getpid())
+    if not os.path.isdir(root):
+        os.makedirs(os.path.join(root, '0', '0_0'))
+        os.makedirs(os.path.join(root, '0', '98_0'))
+        for v in ('13', '33'):
+            os.symlink(os.path.join(ROOT, '0', '0_0', v), os.path.join(root, '0', '0_0', v))
+        os.symlink(os.path.join(ROOT, '0', '98_0', '1'), os.path.join(root, '0', '98_0', '1'))
+    return root
+
+
+ROOT_REQUESTS = [(r, mver, lver) for r in ('bundled', 'private') for mver in (13, 25, 33) for lver in (0, 1)]
+
+
+def run_select_roots(args):
+    """histories of table-group requests against TWO tables directories with different contents, from a reset cache: every
+    request must be answered by the documented fall-back applied to ITS directory"""
+    import shutil
+    import pybufrkit.tables as pt
+    hists, = args
+    p = Partial()
+    base = os.environ.get('VERIF_SCRATCH') or '/dev/shm'
+    proot = private_root(base)
+    try:
+        for h in hists:
+            pt.TableGroupCacheManager._TABLE_GROUP_CACHE = pt.TableGroupCache()
+            p.n['nodes'] += 1
+            for step, k in enumerate(h):
+                rname, mver, lver = ROOT_REQUESTS[k]
+                root = None if rname == 'bundled' else proot
+                p.n['exec'] += 1
+                p.n['edges'] += 1
+                case = {'history': list(h), 'step': step}
+                with contextlib.redirect_stderr(io.StringIO()):
+                    try:
+                        tg = pt.TableGroupCacheManager.get_table_group(tables_root_dir=root, master_table_number=0,
+                                                                       originating_centre=98, originating_subcentre=0,
+                                                                       master_table_version=mver, local_table_version=lver,
+                                                                       normalize=1)
+                    except Exception as e:
+                        p.violation('select-roots-raises:' + type(e).__name__, case,
+                                    'request %r after %r raised %r' % (ROOT_REQUESTS[k], [ROOT_REQUESTS[j] for j in h[:step]], e))
+                        break
+                wmo, local = expected_key(0, 98, 0, mver, lver, root)
+                got = (tuple(tg.key.wmo_tables_sn), tuple(tg.key.local_tables_sn) if tg.key.local_tables_sn else None)
+                p.outcome((rname, wmo[2] == str(mver), local is not None, step))
+                B, D = tables.load_sn(wmo, local)
+                sizes = (len(tg.B.descriptors), len(tg.D.descriptors))
+                if got != (wmo, local) or sizes != (len(B), len(D)):
+                    p.violation('select-roots|%s' % ('key' if got != (wmo, local) else 'content'), case,
+                                'request %r after %r: selected %r with %r entries, the fall-back applied to that directory gives %r '
+                                'with %r entries' % (ROOT_REQUESTS[k], [ROOT_REQUESTS[j] for j in h[:step]], got, sizes, (wmo, local),
+                                                     (len(B), len(D))))
+                    break
+    finally:
+        shutil.rmtree(proot, ignore_errors=True)
+    return p
+
+
 def replay(part, case):
+    if part == 'select-roots':
+        p = run_select_roots(([tuple(case['history'])],))
+        return [{'sig': x['sig'], 'detail': x['detail']} for x in p.viol]
     if part == 'tableD':
         v = case['version']
         master = int(v.split('+')[0])
@@ -400,4 +463,10 @@ def main(tier, seed):
     p.n['nodes'], p.n['edges'] = p.n['exec'] + 1, p.n['exec']
     p.sample({'combo': combos[100]})
     rep.add_part('select', p, bounds={'combinations': len(combos)})
+    n = len(ROOT_REQUESTS)
+    maxlen = 2 if tier == 'quick' else 3
+    hists = [h for L in range(1, maxlen + 1) for h in itertools.product(range(n), repeat=L)]
+    p = merge_all(run_shards(run_select_roots, [(s_,) for s_ in split(hists, 32)]))
+    rep.add_part('select-roots', p, bounds={'requests': ROOT_REQUESTS, 'max_length': maxlen, 'histories': len(hists),
+                                            'directories': 'bundled; private (master versions 13 and 33, local 98_0/1 only)'})
     return rep.finish()
